@@ -2,10 +2,12 @@ package checks
 
 import (
 	"bytes"
+	"errors"
 	"fmt"
 	"strings"
 
 	"github.com/talostrading/sonic/codec/websocket"
+	"github.com/talostrading/sonic/sonicerrors"
 
 	"verif/internal/vf"
 	"verif/internal/wsref"
@@ -106,6 +108,12 @@ func runC16(c *vf.Case) {
 	}
 
 	closed := false
+	// a frame-level read may be started while an asynchronous write is held by the transport (the read path
+	// enters the flush logic again); it stays parked until the peer sends something
+	readParked, parkedCalls := false, 0
+	var parkedFrame websocket.Frame
+	var parkedErr error
+	overlaps, syncBlocks := 0, 0
 	steps := r.Range(1, 40)
 	for step := 0; step < steps && !c.Failed() && !closed; step++ {
 		async := r.Bool()
@@ -116,10 +124,38 @@ func runC16(c *vf.Case) {
 		var err error
 		calls := 0
 		cb := func(e error) { calls++; err = e }
+		if !async && r.Chance(1, 6) {
+			// the transport takes k more bytes and then reports would-block once (a non-blocking socket whose
+			// send buffer filled up): the synchronous call fails, a later Flush must finish the frame exactly once
+			t.WriteBlockAt = len(t.Written) + r.Intn(40)
+			syncBlocks++
+		}
 		finish := func(what string) bool {
+			if !async {
+				for tries := 0; tries < 4 && errors.Is(err, sonicerrors.ErrWouldBlock); tries++ {
+					c.Logf("  (synchronous call hit would-block after %d wire bytes; Flush again)", len(t.Written))
+					err = s.Flush()
+				}
+				t.WriteBlockAt = -1
+				return true
+			}
 			if async {
 				if hold {
 					partial++
+					if !readParked && r.Bool() {
+						c.Logf("  (while the write is held by the transport: AsyncNextFrame)")
+						readParked, parkedCalls = true, 0
+						s.AsyncNextFrame(func(e error, f websocket.Frame) {
+							parkedCalls++
+							parkedErr = e
+							parkedFrame = append(websocket.Frame(nil), f...)
+						})
+						overlaps++
+					} else if r.Bool() {
+						c.Logf("  (while the write is held by the transport: AsyncFlush)")
+						s.AsyncFlush(func(error) {})
+						overlaps++
+					}
 					t.ReleaseWrites()
 				}
 				t.Pump()
@@ -226,20 +262,29 @@ func runC16(c *vf.Case) {
 			payload := r.Bytes(n)
 			t.Feed(wsref.Frame{Fin: true, Opcode: wsref.OpPing, Payload: payload}.Encode())
 			what := fmt.Sprintf("auto pong for a %d-byte ping", n)
-			c.Logf("peer ping %d bytes; NextFrame; Flush", n)
-			f, rerr := s.NextFrame()
-			if rerr != nil || f.Opcode() != websocket.OpcodePing {
-				c.Failf("ping-not-read", "reading the peer's ping: err=%v", rerr)
-				return
+			c.Logf("peer ping %d bytes; NextFrame (or the parked read); Flush", n)
+			if readParked {
+				t.Pump()
+				if parkedCalls != 1 || parkedErr != nil || len(parkedFrame) < 2 || parkedFrame.Opcode() != websocket.OpcodePing {
+					c.Failf("parked-read-did-not-deliver-ping", "the read started during a held write was invoked %d times, err=%v", parkedCalls, parkedErr)
+					return
+				}
+				readParked = false
+			} else {
+				f, rerr := s.NextFrame()
+				if rerr != nil || f.Opcode() != websocket.OpcodePing {
+					c.Failf("ping-not-read", "reading the peer's ping: err=%v", rerr)
+					return
+				}
 			}
 			expect = append(expect, c16Expect{wsref.OpPong, true, payload, what})
 			if async {
 				s.AsyncFlush(cb)
-				if !finish(what) {
-					return
-				}
 			} else {
 				err = s.Flush()
+			}
+			if !finish(what) {
+				return
 			}
 			if err != nil {
 				c.Failf("write-error-on-healthy-transport", "%s: %v", what, err)
@@ -254,11 +299,11 @@ func runC16(c *vf.Case) {
 			expect = append(expect, c16Expect{wsref.OpClose, true, wsref.ClosePayload(code, reason), what})
 			if async {
 				s.AsyncClose(websocket.CloseCode(code), reason, cb)
-				if !finish(what) {
-					return
-				}
 			} else {
 				err = s.Close(websocket.CloseCode(code), reason)
+			}
+			if !finish(what) {
+				return
 			}
 			if err != nil {
 				c.Failf("write-error-on-healthy-transport", "%s: %v", what, err)
@@ -275,6 +320,8 @@ func runC16(c *vf.Case) {
 	c.Count("payloadless_caller_frames", payloadless)
 	c.Count("writes_with_transport_temporarily_unwritable", partial)
 	c.Count("refused_oversize_writes", refused)
+	c.Count("synchronous_writes_with_wouldblock_mid_frame", syncBlocks)
+	c.Count("reads_or_flushes_started_while_a_write_was_in_flight", overlaps)
 	c.Count("sequences", 1)
 	if t.WriteMax > 0 {
 		c.Count("partial_write_sequences", 1)
@@ -292,7 +339,7 @@ func init() {
 		Rule: "cases = sequences of 1-40 writes: Write/AsyncWrite of text/binary (sizes {0,1,125,126,127,200,65535,65536,max,random}), oversize messages, caller-built frames from AcquireFrame with and without SetPayload (text, binary, ping, pong), automatic Pongs for peer Pings, a final Close; transports accepting all/1/3/7/100 bytes per write, inline or deferred, temporarily unwritable; max in {125,1000,70000,default}; " +
 			"non-trivial = a pooled frame reused for a shorter payload after a longer one, a payload-less caller-built frame, or a partial-write transport; distinct = (max, write behaviour, submission shape)",
 		Assumptions: []string{
-			"one write at a time (overlapping writes belong to C17)",
+			"one application write at a time (overlapping writes belong to C17); a read or flush may be started while a write is held by the transport",
 			"masking keys are not required to be distinct, only present and correctly applied",
 		},
 		NumCases: func(tier, build string) int { return vf.Tiered(tier, 2000, 120000) },
